@@ -346,6 +346,43 @@ func scStorm(variant int) func(x *vs.Exec) {
 					u.Close()
 				}
 			})
+		case 3: // a user connection waits for a work connection that never comes while the session is cut
+			a.OnReq = func(*sw.Peer) {}
+			if r := a.Reg(&msg.NewProxy{ProxyName: "p", ProxyType: "tcp", RemotePort: 20001}); r != "ok:20001" {
+				vs.Fail("setup: %s", r)
+			}
+			w.Quiesce()
+			run(func() {
+				if u, err := w.H.DialFrom("10.8.8.9:9", "127.0.0.1:20001"); err == nil {
+					u.Write([]byte("x"))
+					buf := make([]byte, 1)
+					u.ReadOrIdle(buf)
+					u.Close()
+				}
+			})
+			run(func() {
+				if u, err := w.H.DialFrom("10.8.8.10:10", "127.0.0.1:20001"); err == nil {
+					u.Close()
+				}
+			})
+			run(func() { a.Cut() })
+		case 4: // NAT-hole sessions of two visitors start, are answered / looked up and end concurrently
+			if r := a.Reg(&msg.NewProxy{ProxyName: "x", ProxyType: "xtcp", Sk: "sk", AllowUsers: []string{"*"}}); !strings.HasPrefix(r, "ok") {
+				vs.Fail("setup: %s", r)
+			}
+			a.OnSid = func(p *sw.Peer, sid string) {
+				p.Send(&msg.NatHoleClient{TransactionID: "c-" + sid, ProxyName: "ua.x", Sid: sid, MappedAddrs: []string{"2.2.2.2:2", "2.2.2.2:3"}})
+			}
+			w.Quiesce()
+			for i, v := range []*sw.Peer{b, c} {
+				i, v := i, v
+				run(func() {
+					ts := w.Now()
+					v.Send(&msg.NatHoleVisitor{TransactionID: fmt.Sprintf("t%d", i), ProxyName: "ua.x", Protocol: "quic", Timestamp: ts, SignKey: util.GetAuthKey("sk", ts), MappedAddrs: []string{"1.1.1.1:1", "1.1.1.1:2"}})
+					v.Send(&msg.NatHoleReport{Sid: "nosuchsid", Success: true})
+					v.Send(&msg.NatHoleClient{TransactionID: "zz", ProxyName: "ua.x", Sid: "nosuchsid", MappedAddrs: []string{"3.3.3.3:3", "3.3.3.3:3"}})
+				})
+			}
 		}
 		wg.Wait()
 		w.Quiesce()
@@ -415,7 +452,7 @@ func main() {
 	if c == nil {
 		return
 	}
-	c.Rule("E1: (a) all single-field deviations over extreme-value alphabets (negative / huge integers, empty / 9000-char / control-character strings, nil / empty / 300-entry maps, nil / empty / 1000-entry lists, malformed addresses) of all 18 message types (NewProxy for all 8 proxy types) sent to the real frps as first message of a connection and on an established session, and of the server-to-client types sent by a model server to the real frpc; after each case a bystander session, its tunnel, a fresh login and a fresh tunnel must work, no managed thread may have panicked (= process crash) and none may be stuck after teardown; (b) three concurrent mixed-traffic storms under all schedules with at most B deviations (two default orders) with the happens-before detector on every struct-field map of the instrumented packages; non-trivial = distinct (position, type, field, value)")
+	c.Rule("E1: (a) all single-field deviations over extreme-value alphabets (negative / huge integers, empty / 9000-char / control-character strings, nil / empty / 300-entry maps, nil / empty / 1000-entry lists, malformed addresses) of all 18 message types (NewProxy for all 8 proxy types) sent to the real frps as first message of a connection and on an established session, and of the server-to-client types sent by a model server to the real frpc; after each case a bystander session, its tunnel, a fresh login and a fresh tunnel must work, no managed thread may have panicked (= process crash) and none may be stuck after teardown; (b) five concurrent mixed-traffic storms (registration / closure / groups / session cut; secret proxies, visitors and NAT-hole messages against closing proxies; re-login with work connections for dying sessions; user connections waiting for a work connection while the session is cut; NAT-hole sessions of two visitors starting, being answered and ending together) under all schedules with at most B deviations (two default orders) with the happens-before detector on every struct-field map of the instrumented packages; non-trivial = distinct (position, type, field, value)")
 	pool := vs.GetPool(c.Workers)
 	var names []string
 	wdummy := map[string]msg.Message{}
@@ -482,8 +519,8 @@ func main() {
 	c.Sample(map[string]any{"cases": []string{names[0], names[len(names)/2], names[len(names)-1]}})
 	c.Note("field_cases", len(names))
 	b := drv.Pick(c, 1, 2)
-	for v := 0; v < 3; v++ {
-		c.ExploreBoth(fmt.Sprintf("storm|%d", v), b, 1.0/float64(3-v))
+	for v := 0; v < 5; v++ {
+		c.ExploreBoth(fmt.Sprintf("storm|%d", v), b, 1.0/float64(5-v))
 	}
 	c.Finish()
 }
